@@ -21,6 +21,11 @@ CFG = {
         {"component": "notifier", "trivial_regex": r"^(bad-op.*)$", "timeout_quick": 120, "timeout_thorough": 900},
         {"component": "gathercycle", "trivial_regex": r"^(bad-op.*)$", "timeout_quick": 120, "timeout_thorough": 900},
         {"component": "gatherforce", "trivial_regex": r"^(bad-op.*)$", "timeout_quick": 120, "timeout_thorough": 900},
+        # the gather component of C18/C09 (one real agent, scripted TURN servers), restricted to its block of TURN URLs with and
+        # without credentials: the relay gatherer stops at the first URL without them but must wait for the allocations it has
+        # started - the nil candidate comes after their candidates (clause IceSpec.C11Gather.nilViolation + model comparison)
+        {"component": "gather", "session_start": "new", "args": "turncreds", "trivial_regex": r"^(bad-op.*|r=err:.*)$",
+         "timeout_quick": 300, "timeout_thorough": 900, "shrink_s": 40},
     ],
     "rule": "notifier: one line per recorded stream history (quick: 6000 synctest + 1200 free-running + 1500 real-agent scenarios, "
             "1-3 stream histories each; thorough: 250000 + 15000 + 50000); gathercycle: one line per agent history (quick 6000, "
@@ -30,6 +35,9 @@ CFG = {
             "further gatherer), each executed 40-48 times on a fresh real agent: the output is the set of distinct observations (announced "
             "candidates with ufrag and generation, addCandidate results, local candidate list and open sockets after every step) and must "
             "equal the model's single prediction; a wrong hand-off is missed with probability 2^-40 per line that forces the window. "
+            "gather (args turncreds): 39 lists of TURN URLs with / without username / password (length 1-3, every order) x 2 configurations x a "
+            "reply script with Restart and Close, + 4 filtered / cancelled variants - one line per operation, compared with IceModel.Gather and "
+            "judged by IceSpec.C11Gather.nilViolation (one nil, after all candidates of its cycle, none while a request of the cycle is in flight). "
             "Distinct = distinct (history, output) lines; every line is non-trivial (a history with at least one event).",
     "translated": [],
     "trusted_base": ["sync.Mutex / sync.WaitGroup / channel-close semantics as modelled (atomic critical sections)",
